@@ -28,6 +28,7 @@ fn run(name: &str, f: fn(&Case) -> R) -> Option<(Case, &'static str, u64)> {
         for start in 0..=input.len() {
             if !input.is_char_boundary(start) { continue; }
             for far in [None, Some(0), Some(input.len()), Some(start)] {
+                if !uses(name, "input") && far.is_some() { continue; }
                 for (ci, c) in CHARS.iter().enumerate() {
                     for c2 in [CHARS[(ci + 3) % CHARS.len()], *c, 'z', '\u{10ffff}'] {
                         for lit in LITS {
@@ -58,6 +59,7 @@ fn run(name: &str, f: fn(&Case) -> R) -> Option<(Case, &'static str, u64)> {
 
 /// memo-table keys worth trying: small offsets, around powers of two and typical table sizes, the extremes
 fn keys(name: &str) -> Vec<(usize, usize, usize)> {
+    if name == "IndentedTracer" { return [0usize, 1, 2, 3, 9, 31, 32, 33, 63, 64, 65, 66, 100, 127, 128, 129, 200, 255, 256, 257, 300].iter().map(|d| (*d, 0, 0)).collect(); }
     if name != "CacheEntries" { return vec![(0, 0, 0)]; }
     let mut ks: Vec<usize> = (0..10).collect();
     for sh in [4usize, 5, 6, 7, 8, 9, 10, 11, 12, 13, 14, 15, 16, 20, 24, 31, 32, 33, 48, 63] {
@@ -76,7 +78,7 @@ fn uses(name: &str, dim: &str) -> bool {
         "c" => matches!(name, "parse_character_literal" | "parse_character_range" | "parse_character_literal_insensitive"),
         "c2" => name == "parse_character_range",
         "lit" => matches!(name, "parse_string_literal" | "parse_string_literal_insensitive" | "ChoiceHelper::choice"),
-        "input" => name != "CacheEntries",
+        "input" => name != "CacheEntries" && name != "IndentedTracer",
         "n" => matches!(name, "ParseState::first_n_chars" | "ParseState::advance_safe" | "ParseState::advance" | "ParseState::slice_until" | "ParseState::record_error" | "ChoiceHelper::choice"),
         _ => true,
     }
